@@ -16,8 +16,13 @@ Inductive op :=
 
 Record case := mk {
   c_in : brows; c_op : op;
-  c_src_after_call : brows; c_result : brows; c_src_after_result_mutated : brows; c_result_after_src_mutated : brows
+  c_src_after_call : brows; c_result : brows; c_src_after_result_mutated : brows; c_result_after_src_mutated : brows;
+  (* the input's alphabet: before the call, after it, after the result was mutated *)
+  c_alphabets : list Z
 }.
+
+Definition all_same (l : list Z) : bool :=
+  match l with [] => true | a :: t => forallb (Z.eqb a) t end.
 
 Definition to_aop (c : case) : aop :=
   match c_op c with
@@ -36,7 +41,9 @@ Definition model_ok (c : case) : bool :=
   rows_eqb (unrows (c_src_after_call c)) (e_src_after_call e) &&
   rows_eqb (unrows (c_result c)) (e_result e) &&
   rows_eqb (unrows (c_src_after_result_mutated c)) (e_src_after_result_mutated e) &&
-  rows_eqb (unrows (c_result_after_src_mutated c)) (e_result_after_src_mutated e).
+  rows_eqb (unrows (c_result_after_src_mutated c)) (e_result_after_src_mutated e) &&
+  (* the heap model has no alphabet field to write to: a query leaves it as it was *)
+  all_same (c_alphabets c).
 
 (* the property itself, on the observed snapshots: listed queries and copy
    producers; the deliberately sharing operations are not in the statement *)
@@ -46,7 +53,8 @@ Definition spec_check (c : case) : option bool :=
   | _ =>
       Some (rows_eqb (unrows (c_src_after_call c)) (unrows (c_in c)) &&
             rows_eqb (unrows (c_src_after_result_mutated c)) (unrows (c_in c)) &&
-            rows_eqb (unrows (c_result_after_src_mutated c)) (unrows (c_result c)))
+            rows_eqb (unrows (c_result_after_src_mutated c)) (unrows (c_result c)) &&
+            all_same (c_alphabets c))
   end.
 
 Definition spec_ok (c : case) : bool := ok_of (spec_check c).
